@@ -11,7 +11,10 @@ import (
 // The rewritten select must compile for every clause form and behave like the original.
 const selectSample = `package midicatdrv
 
-import "sync"
+import (
+	"sync"
+	"time"
+)
 
 type box struct {
 	sync.Mutex
@@ -53,6 +56,42 @@ func (x *box) loop() (res string) {
 		}
 	}
 	return res
+}
+
+type gate struct {
+	mu    sync.Mutex
+	cond  *sync.Cond
+	open  bool
+	count int
+	done  chan int
+}
+
+func newGate() *gate {
+	g := &gate{done: make(chan int, 8)}
+	g.cond = sync.NewCond(&g.mu)
+	return g
+}
+
+func (g *gate) waiter(tag int, scale int64) {
+	g.mu.Lock()
+	for !g.open {
+		g.cond.Wait()
+	}
+	g.count++
+	g.mu.Unlock()
+	g.done <- tag * int(scale)
+}
+
+func (g *gate) start() {
+	go g.waiter(1, 10)
+	var k int64 = 100
+	go g.waiter(2, k)
+	time.AfterFunc(time.Millisecond, func() {
+		g.mu.Lock()
+		g.open = true
+		g.mu.Unlock()
+		g.cond.Broadcast()
+	})
 }
 
 func (x *box) terminating() int {
@@ -105,6 +144,11 @@ func TestRewritten(t *testing.T) {
 	if got := x.loop(); got != "" {
 		t.Fatalf("loop on closed: %q", got)
 	}
+	g := newGate()
+	g.start()
+	if a, b := <-g.done, <-g.done; a+b != 210 || g.count != 2 {
+		t.Fatalf("gate: %d %d %d", a, b, g.count)
+	}
 	x.a = make(chan int, 1)
 	x.b = make(chan int, 1)
 	x.b <- 4
@@ -118,6 +162,11 @@ func TestSeededSelectRewrite(t *testing.T) {
 	out, n, err := Rewrite("sample.go", []byte(selectSample))
 	if err != nil || n == 0 {
 		t.Fatalf("rewrite: n=%d err=%v", n, err)
+	}
+	for _, want := range []string{"verifNewCond(", "*verifCond", "verifAfterFunc(", "verifChild1F := g.waiter", "verifChild2A1 := k"} {
+		if !strings.Contains(string(out), want) {
+			t.Fatalf("%q missing in the rewritten sample:\n%s", want, out)
+		}
 	}
 	if !strings.Contains(string(out), "verifSelect(4)") || !strings.Contains(string(out), "verifSelect(2)") {
 		t.Fatalf("selects were not rewritten:\n%s", out)
